@@ -1,6 +1,6 @@
 """C26 the C preprocessor agrees with a conforming preprocessor (DESIGN 4, C26).
 
-Monitor: a generated unit of ~25 self-contained sections (vlib/ppgen.py: macro
+Monitor: a generated unit of 150-400 self-contained sections (vlib/ppgen.py: macro
 definition/use sections, #if/#elif/#ifdef sections whose arms hold distinct
 marker tokens) is preprocessed by `gcc -E -P -std=c99 -pedantic-errors` and by
 ppci.lang.c.preprocess; both outputs are re-lexed with one neutral pp-token
@@ -38,8 +38,7 @@ MANIFEST_ENTRY = {
              "listed in known_findings.d/C26.json; trusted base: gcc -E."),
     "technique": "runtime monitoring: gcc -E -P token stream as oracle over ppgen translation units",
 }
-SHARD_TIMEOUT = {"quick": 900, "thorough": 3 * 3600}
-SECTIONS_PER_UNIT = 25
+SHARD_TIMEOUT = {"quick": 600, "thorough": 3 * 3600}
 
 
 def EXHAUSTIVE(tier):
@@ -47,15 +46,16 @@ def EXHAUSTIVE(tier):
 
 
 def plan(tier, seed, avoid):
+    # one gcc -E process per unit: few large units
     if tier == "quick":
-        return [{"shard": i, "units": 12} for i in range(32)]
-    return [{"shard": i, "units": 300} for i in range(48)]
+        return [{"shard": i, "units": 2, "sections": 150} for i in range(12)]
+    return [{"shard": i, "units": 30, "sections": 400} for i in range(32)]
 
 
 def floors(tier):
     big = tier != "quick"
-    return {"evaluations": 150000 if big else 5000, "distinct_nontrivial": 60000 if big else 3000,
-            "observed.kind.if": 2000, "observed.kind.macro": 2000,
+    return {"evaluations": 200000 if big else 2500, "distinct_nontrivial": 100000 if big else 2000,
+            "observed.kind.if": 1000, "observed.kind.macro": 1000,
             "observed.features.function-macro": 500, "observed.features.object-macro": 500,
             "observed.features.else": 500, "observed.arms_taken": 3}
 
@@ -169,7 +169,7 @@ def run_shard(spec):
     for u in range(spec["units"]):
         uid = "%s_%s" % (spec["shard"], u)
         r = rng(spec["seed"], PROPERTY, uid)
-        sections = [(i, ppgen.gen_section(r, i, avoid)) for i in range(SECTIONS_PER_UNIT)]
+        sections = [(i, ppgen.gen_section(r, i, avoid)) for i in range(spec.get("sections", 25))]
         kept, want = gcc_pp(sections, tmp, "u" + uid, disc)
         if not kept:
             continue
